@@ -372,6 +372,7 @@ class Body:
 
     def origin_place(self, place, bb, idx, depth=0):
         if depth > 150:
+            self._depth_cuts = self.__dict__.get("_depth_cuts", 0) + 1
             return ("unknown", "depth")
         base = self.origin_local(place["l"], bb, idx, depth)
         t = base
@@ -393,7 +394,24 @@ class Body:
         return _simplify(t)
 
     def origin_local(self, local, bb, idx, depth=0):
+        # memoised per (local, program point): a long chain of statements that each mention the previous value more than once (a
+        # buffer threaded through dozens of writes) is otherwise re-expanded exponentially often.  A result is only kept when no
+        # depth cut-off happened while it was computed (it is then independent of the depth it was asked at).
+        memo = self.__dict__.setdefault("_origin_memo", {})
+        key = (local, bb, idx)
+        hit = memo.get(key)
+        # an entry computed without any depth cut-off is exact; one computed with cut-offs at depth d0 is at least as precise as
+        # what a request at depth >= d0 would compute (it had more budget left), so it may stand in for it
+        if hit is not None and (hit[0] is None or depth >= hit[0]):
+            return hit[1]
+        cuts0 = self.__dict__.get("_depth_cuts", 0)
+        res = self._origin_local_uncached(local, bb, idx, depth)
+        memo[key] = (None if self.__dict__.get("_depth_cuts", 0) == cuts0 else depth, res)
+        return res
+
+    def _origin_local_uncached(self, local, bb, idx, depth=0):
         if depth > 150:
+            self._depth_cuts = self.__dict__.get("_depth_cuts", 0) + 1
             return ("unknown", "depth")
         rds = self.reaching_defs(local, bb, idx)
         if not rds:
